@@ -28,7 +28,10 @@ pub enum Target {
     ExportLoc,
 }
 
-pub const BODIES: [&str; 5] = ["const", "arg", "call-other", "global", "unreachable"];
+/// "scratch": the new body keeps an intermediate value in a local of its own, which has to be
+/// created before the replace call (the closure only gets the body builder), so its id is smaller
+/// than the ids of the argument locals the call creates
+pub const BODIES: [&str; 6] = ["const", "arg", "call-other", "global", "unreachable", "scratch"];
 
 /// WAT of the module. `replaced`: None = original; Some((target, body, which_export)) = expected
 fn wat(v: &Variant, replaced: Option<(Target, usize, usize)>) -> String {
@@ -38,6 +41,7 @@ fn wat(v: &Variant, replaced: Option<(Target, usize, usize)>) -> String {
             1 => "(local.get 0)".into(),
             2 => format!("(call ${} (local.get 0))", other),
             3 => "(global.set $g (local.get 0)) (global.get $g)".into(),
+            5 => "(local i32) (local.set 1 (i32.add (local.get 0) (i32.const 1))) (i32.add (local.get 1) (local.get 0))".into(),
             _ => "(unreachable)".into(),
         }
     };
@@ -46,6 +50,7 @@ fn wat(v: &Variant, replaced: Option<(Target, usize, usize)>) -> String {
             0 | 1 => "".into(),
             2 => "(drop (call $a (i32.const 1)))".into(),
             3 => "(global.set $g (i32.const 5))".into(),
+            5 => "(local i32) (local.set 0 (i32.const 3)) (global.set $g (local.get 0))".into(),
             _ => "(unreachable)".into(),
         }
     };
@@ -139,6 +144,7 @@ fn edit(orig: &[u8], v: &Variant, target: Target, body: usize) -> Result<Vec<u8>
             .ok_or("no import env.a")?;
         let fb = m.imports.get_func("env", "b").ok();
         let floc = m.exports.get_func("loc").map_err(|e| e.to_string())?;
+        let scratch = if body == 5 { Some(m.locals.add(ValType::I32)) } else { None };
         match target {
             Target::ImportA | Target::ImportB => {
                 let (fid, other) = if target == Target::ImportA { (fa, if v.two_imports { fb.unwrap() } else { floc }) } else { (fb.ok_or("no b")?, fa) };
@@ -155,6 +161,10 @@ fn edit(orig: &[u8], v: &Variant, target: Target, body: usize) -> Result<Vec<u8>
                     3 => {
                         b.local_get(args[0]).global_set(g).global_get(g);
                     }
+                    5 => {
+                        let s = scratch.unwrap();
+                        b.local_get(args[0]).i32_const(1).binop(walrus::ir::BinaryOp::I32Add).local_set(s).local_get(s).local_get(args[0]).binop(walrus::ir::BinaryOp::I32Add);
+                    }
                     _ => {
                         b.unreachable();
                     }
@@ -170,6 +180,10 @@ fn edit(orig: &[u8], v: &Variant, target: Target, body: usize) -> Result<Vec<u8>
                     }
                     3 => {
                         b.i32_const(5).global_set(g);
+                    }
+                    5 => {
+                        let s = scratch.unwrap();
+                        b.i32_const(3).local_set(s).local_get(s).global_set(g);
                     }
                     _ => {
                         b.unreachable();
@@ -190,6 +204,10 @@ fn edit(orig: &[u8], v: &Variant, target: Target, body: usize) -> Result<Vec<u8>
                     }
                     3 => {
                         b.local_get(args[0]).global_set(g).global_get(g);
+                    }
+                    5 => {
+                        let s = scratch.unwrap();
+                        b.local_get(args[0]).i32_const(1).binop(walrus::ir::BinaryOp::I32Add).local_set(s).local_get(s).local_get(args[0]).binop(walrus::ir::BinaryOp::I32Add);
                     }
                     _ => {
                         b.unreachable();
@@ -254,7 +272,7 @@ pub fn plan() -> Vec<Planned> {
             targets.push(Target::ImportS);
         }
         for t in targets {
-            for body in 0..5 {
+            for body in 0..6 {
                 if t == Target::ImportS && body == 1 {
                     continue;
                 }
